@@ -136,6 +136,9 @@ type c16Hist struct {
 
 	failed atomic.Bool
 	inconc atomic.Bool
+	// porcOnly (env C16_PORC_ONLY=1, sensitivity runs only) switches the
+	// direct oracles off so that the porcupine check is exercised on its own.
+	porcOnly bool
 }
 
 func (h *c16Hist) now() int64 { return int64(time.Since(h.base)) }
@@ -585,6 +588,7 @@ func (h *c16Hist) sequential(rng *kit.RNG, raw *c16Raw) {
 		}
 		should := e == -1 || e == next
 		switch {
+		case h.porcOnly && op.Out != c16OutOpen:
 		case op.Out == c16OutOpen:
 			h.inconclusive(fmt.Sprintf("sequential publish %s got no answer: %s", op.Tag, op.Err))
 			return
@@ -613,6 +617,7 @@ func (h *c16Hist) sequential(rng *kit.RNG, raw *c16Raw) {
 
 type c16Stats struct {
 	ok, rejected, open, openStored, refused int
+	openAnyAbsent                           int
 	contested, contestedWon                 int
 	futureWon, equalLost                    int
 	classes                                 map[string]int
@@ -706,6 +711,9 @@ func (h *c16Hist) checkLog(recs []vfLogRec, st *c16Stats) {
 				}
 			} else {
 				o.Fate = "absent"
+				if o.E == -1 && !strings.HasSuffix(o.Via, "-none") {
+					st.openAnyAbsent++
+				}
 			}
 			if strings.HasSuffix(o.Via, "-none") && o.Via != "raw-none" {
 				// apiServer.Publish / PublishAsync accepted ack policy NONE on an OCC stream
@@ -767,14 +775,14 @@ func (h *c16Hist) checkAcks() int {
 
 func c16RunHistory(rep *kit.Report, c *vfCluster, srv *Server, cfgDesc string, serverWide bool, mode string, idx int, seed uint64, pool []*nats.Conn) {
 	rng := kit.NewRNG(seed)
-	h := &c16Hist{rep: rep, c: c, srv: srv, cfgDesc: cfgDesc, seed: seed, mode: mode, sent: map[string][]c16Sent{}}
+	h := &c16Hist{rep: rep, c: c, srv: srv, cfgDesc: cfgDesc, seed: seed, mode: mode, sent: map[string][]c16Sent{}, porcOnly: kit.EnvInt("C16_PORC_ONLY", 0) == 1}
 	h.stream = fmt.Sprintf("c16h%d", idx)
 	h.n = []int{2, 2, 3, 4, 6, 8, 12, 16}[rng.Intn(8)]
 	h.total = rng.Range(100, 300)
 	h.seqLen = []int{0, 4, 10, 25}[rng.Intn(4)]
 	h.profile = c16Profiles[rng.Intn(len(c16Profiles))]
 	req := &client.CreateStreamRequest{Subject: h.stream, Name: h.stream, ReplicationFactor: 1}
-	if !serverWide || rng.Bool() {
+	if !serverWide || idx%4 != 0 {
 		req.OptimisticConcurrencyControl = &client.NullableBool{Value: true}
 	}
 	switch rng.Intn(3) {
@@ -793,7 +801,17 @@ func c16RunHistory(rep *kit.Report, c *vfCluster, srv *Server, cfgDesc string, s
 	}
 	h.part = c.Nodes["a"].Partition(h.stream, 0)
 	if !h.part.log.IsConcurrencyControlEnabled() {
-		rep.Violation("C16:occ-not-enabled", fmt.Sprintf("stream created with optimistic concurrency control (request=%v, server-wide=%v) has a log without it", req.OptimisticConcurrencyControl != nil, serverWide), nil)
+		// show the consequence at the client boundary: a conditional publish
+		// that cannot be right is accepted
+		h.base = time.Now()
+		op := h.newOp(0, "seq", "api", "future", client.AckPolicy_LEADER, 5)
+		h.viaAPI(op, client.AckPolicy_LEADER, "", 0)
+		how, fp := "CreateStreamRequest.OptimisticConcurrencyControl=true", "C16:occ-not-enabled:request-flag"
+		if req.OptimisticConcurrencyControl == nil {
+			how, fp = "the server-wide setting streams.concurrency.control=true (no per-stream override)", "C16:occ-not-enabled:server-wide-setting"
+		}
+		rep.Eval()
+		h.fail(fp, fmt.Sprintf("a stream created under %s has a partition log without concurrency control; a publish with expected offset 5 on the empty stream was answered: %s", how, op), nil)
 		return
 	}
 	c16HookHists.Store(h.stream, h)
@@ -860,10 +878,26 @@ func c16RunHistory(rep *kit.Report, c *vfCluster, srv *Server, cfgDesc string, s
 		return
 	}
 	st := &c16Stats{classes: map[string]int{}}
-	h.checkLog(recs, st)
 	nacks := 0
-	if !h.failed.Load() {
-		nacks = h.checkAcks()
+	if h.porcOnly {
+		at := map[string]int64{}
+		for _, r := range recs {
+			at[string(r.Value)] = r.Offset
+		}
+		for _, o := range h.ops {
+			if o.Out == c16OutOpen {
+				if off, ok := at[o.Tag]; ok {
+					o.Fate, o.Off = "stored", off
+				} else {
+					o.Fate = "absent"
+				}
+			}
+		}
+	} else {
+		h.checkLog(recs, st)
+		if !h.failed.Load() {
+			nacks = h.checkAcks()
+		}
 	}
 	lin := "skipped"
 	if !h.failed.Load() {
@@ -887,6 +921,7 @@ func c16RunHistory(rep *kit.Report, c *vfCluster, srv *Server, cfgDesc string, s
 	rep.Count("open", int64(st.open))
 	rep.Count("open_found_stored", int64(st.openStored))
 	rep.Count("none_policy_refused_by_api", int64(st.refused))
+	rep.Count("unanswered_unconditional_publishes_absent_(not_judged)", int64(st.openAnyAbsent))
 	rep.Count("expected_offsets_with_2+_competitors", int64(st.contested))
 	rep.Count("contested_offsets_with_exactly_one_winner", int64(st.contestedWon))
 	rep.Count("future_guesses_that_won", int64(st.futureWon))
@@ -898,8 +933,18 @@ func c16RunHistory(rep *kit.Report, c *vfCluster, srv *Server, cfgDesc string, s
 	for k, v := range st.classes {
 		rep.Count("class_"+k, int64(v))
 	}
-	segs := len(h.part.log.Segments())
+	segs := 0
+	if ents, err := os.ReadDir(fmt.Sprintf("%s/streams/%s/0", srv.config.DataDir, h.stream)); err == nil {
+		for _, e := range ents {
+			if strings.HasSuffix(e.Name(), ".log") {
+				segs++
+			}
+		}
+	}
 	rep.Count("log_segments", int64(segs))
+	if h.porcOnly {
+		rep.Nontrivial(fmt.Sprintf("porc-only|%s|%d", cfgDesc, idx))
+	}
 	if st.contestedWon > 0 && st.equalLost > 0 && st.classes["any/ok"] > 0 && st.classes["stale/rejected"]+st.classes["zero/rejected"] > 0 && st.classes["future/rejected"] > 0 {
 		rep.Nontrivial(fmt.Sprintf("%s|%s|n=%d|%s|ok=%d|rej=%d|open=%d|contested=%d|segs=%d", cfgDesc, mode, h.n, h.profile.Name, st.ok, st.rejected, st.open, st.contested, segs))
 	}
@@ -924,8 +969,8 @@ func TestVerifC16Server(t *testing.T) {
 	remove := c16InstallHook()
 	defer remove()
 	root := kit.NewRNG(kit.Mix(kit.Seed(), 0xC16+uint64(len(mode))*131+uint64(mode[0])))
-	nsrv := kit.Scale(3, 14)
-	perSrv := kit.Scale(7, 24)
+	nsrv := kit.Scale(6, 16)
+	perSrv := kit.Scale(14, 36)
 	hidx := 0
 	for s := 0; s < nsrv && rep.NumViolations() < 4; s++ {
 		rng := root.Fork(uint64(s))
